@@ -17,6 +17,7 @@ Inductive op :=
 | OSet (s : str)
 | OSelf                       (* t.fmt = str(t.fmt) *)
 | ORemove (names : list str)
+| OLimits (lim : option limits)   (* t.fmt.set_limits(lim) *)
 | ORebuild                    (* t = PPTable(records, fmt=str(t.fmt), fields=...) *)
 | OCheck.                     (* round trips on copies of t, t itself untouched *)
 
@@ -61,6 +62,8 @@ Definition step (rows : list row) (t : tstate) (o : op) : tstate * sx :=
       end
   | ORemove names =>
       let t' := remove_columns t names in (t', sx_str (fmt_to_str t'))
+  | OLimits lim =>
+      let t' := set_limits t lim in (t', sx_str (fmt_to_str t'))
   | ORebuild =>
       match rebuild t with
       | Ok t' => (t', SL [SZ 0; sx_str (fmt_to_str t')])
